@@ -80,6 +80,19 @@ def make_input(rng: random.Random, n_refs: int = 2, n_qry: int = 8, ref_labels=(
             b, _ = gen.cut_query(rng, ref2["bp"], b0, b0 + w1, sigma=100)
             gap = rng.randint(3000, 15000)
             coords = a + [a[-1] + gap + v for v in b]
+        elif kind == "swappedindel":
+            # "B A1 A2" on an "A1 A2 B" reference: the two windows in the opposite order on the molecule, and the first
+            # window (second on the molecule) split in two by a 2-4 kb indel: the alignment next to the junction has two
+            # segments, the joined row would have to cross
+            w1 = max(12, w // 2)
+            g = rng.randint(1, 4)
+            if w0 + 2 * w1 + g + 4 >= n:
+                w0 = max(4, n - 2 * w1 - g - 5)
+            a, _ = gen.cut_query(rng, xs, w0, w0 + w1, sigma=60,
+                                 indel=(w0 + w1 // 2, rng.choice([-1, 1]) * rng.randint(2000, 4000)))
+            b, _ = gen.cut_query(rng, xs, w0 + w1 + g, w0 + 2 * w1 + g, sigma=60)
+            gap = rng.randint(3000, 12000)
+            coords = b + [b[-1] + gap + v for v in a]
         elif kind in ("swapped", "dup", "split"):
             # two windows of the SAME reference close to each other: swapped = in the opposite order on the
             # molecule (crossing parts), dup = the same window twice, split = in order with a deletion between
